@@ -11,8 +11,8 @@ import Refine.Lemmas.ShufflinInv
 -/
 namespace Refine.Props.C06ShufflinInv
 open Refine.Model.Dist Refine.Model.Shufflin Refine.Lemmas.Shufflin Refine.Lemmas.ShufflinWorld
-open Refine.Lemmas.ShufflinSpec Refine.Lemmas.ShufflinInv Refine.Props.C06Shufflin
-open Refine.Model.Comm (World)
+open Refine.Lemmas.ShufflinSpec Refine.Lemmas.ShufflinInv Refine.Props.C06Shufflin Refine.Lemmas.ShufflinPre
+open Refine.Model.Comm (World INT_MAX)
 
 /-- **layout_clauses**: clauses (o)–(v) of `distInv` hold of the layout.  (o) globals and cells distinct per rank,
     globals non-negative, parts in `[0, np)` (`ShufHyp.range` through `vw_facts`); (i) the rank named by `part` stores
@@ -82,5 +82,71 @@ example : ∃ w', shufflin 1 exW = some w' ∧ IsLayout exW w' ∧ distInv w' = 
     rcases hs with rfl | rfl <;> rfl
 
 example : distInv exW = false := by decide +kernel
+
+/-- **migration re-establishes the invariant** (the C06 sentence for the sync point "after `ref_migrate_shufflin`"):
+    from any world satisfying `distInv` for the old partition (ids synchronised, exactly `0..N-1`, `n_global = N`) and
+    any new partition `f` into `[0, np)` written on every stored copy, `ref_migrate_shufflin` completes and the result
+    satisfies `distInv` again.  Side hypotheses as in `shufflin_spec_distInv` (`hN'`, `hgrp`, `hU`, `hsize`). -/
+theorem shufflin_reestablishes_distInv (ldim N : Nat) (w0 : World RankState) (f : Int → Int)
+    (h0 : distInv w0 = true) (hs : synced w0 = true) (hnp : 2 ≤ w0.length)
+    (hf : ∀ s ∈ w0, ∀ nd ∈ s.nodes, 0 ≤ f nd.glob ∧ f nd.glob < (w0.length : Int))
+    (hN' : ∀ s ∈ w0, ∀ nd ∈ s.nodes, nd.glob < (N : Int) ∧ nd.payload.length = ldim)
+    (hgrp : ∀ s ∈ w0, ∀ c ∈ s.cells, c.group < NGROUP)
+    (hU : ∀ s ∈ w0, ∀ t ∈ w0, ∀ c ∈ s.cells, ∀ c' ∈ t.cells, c.group = c'.group → sameVerts c c' = true → c = c')
+    (hsize : ((max 1 ldim : Nat) : Int) * ((w0.length : Int) * (N : Int)) ≤ INT_MAX)
+    (hids : ∀ g : Int, (∃ s ∈ w0, g ∈ s.nodes.map (·.glob)) ↔ 0 ≤ g ∧ g < (N : Int))
+    (hn : ∀ s ∈ w0, s.newN = (N : Int)) :
+    ∃ w', shufflin ldim (setParts f w0) = some w' ∧ IsLayout (setParts f w0) w' ∧ distInv w' = true := by
+  have H := shufHyp_of_distInv ldim N w0 f h0 hs hf hN' hgrp hU hsize
+  have hlen : (setParts f w0).length = w0.length := by unfold setParts; simp
+  have hV : ∀ g : Int, Vw (setParts f w0) g ↔ ∃ s ∈ w0, g ∈ s.nodes.map (·.glob) := by
+    intro g
+    constructor
+    · intro hg
+      obtain ⟨nd', hnd', rfl⟩ := List.mem_map.mp hg
+      obtain ⟨s', hs', hn'⟩ := (mem_allNodes _ _).mp hnd'
+      obtain ⟨s, hs0, rfl⟩ := mem_setParts f w0 s' hs'
+      obtain ⟨nd, hnd, rfl⟩ := List.mem_map.mp hn'
+      exact ⟨s, hs0, List.mem_map.mpr ⟨nd, hnd, rfl⟩⟩
+    · rintro ⟨s, hs0, hg⟩
+      obtain ⟨nd, hnd, rfl⟩ := List.mem_map.mp hg
+      have hmem : ({ s with nodes := s.nodes.map fun nd => ({ nd with part := f nd.glob } : DNode) } : RankState)
+          ∈ setParts f w0 := List.mem_map.mpr ⟨s, hs0, rfl⟩
+      exact List.mem_map.mpr ⟨({ nd with part := f nd.glob } : DNode),
+        (mem_allNodes _ _).mpr ⟨_, hmem, List.mem_map.mpr ⟨nd, hnd, rfl⟩⟩, rfl⟩
+  exact shufflin_distInv ldim N (setParts f w0) H (by rw [hlen]; exact hnp)
+    (fun g => by rw [hV g]; exact hids g)
+    (fun s' hs' => by
+      obtain ⟨s, hs0, rfl⟩ := mem_setParts f w0 s' hs'
+      exact hn s hs0)
+
+/-- non-vacuity: the hypotheses are met by the 2-rank world `exDist` of `Props/C06.lean` (which satisfies `distInv`)
+    and the partition that moves every vertex to the other rank -/
+example : ∃ w', shufflin 1 (setParts (fun g => if g ≤ 1 then 1 else 0) Refine.Props.C06.exDist) = some w' ∧
+    IsLayout (setParts (fun g => if g ≤ 1 then 1 else 0) Refine.Props.C06.exDist) w' ∧ distInv w' = true := by
+  have hmem : ∀ s ∈ Refine.Props.C06.exDist, s = Refine.Props.C06.exDist[0]'(by decide) ∨
+      s = Refine.Props.C06.exDist[1]'(by decide) := by
+    intro s hs
+    simp only [Refine.Props.C06.exDist, List.mem_cons, List.not_mem_nil, or_false] at hs
+    rcases hs with rfl | rfl
+    · left; rfl
+    · right; rfl
+  refine shufflin_reestablishes_distInv 1 5 Refine.Props.C06.exDist _ (by decide +kernel) (by decide) (by decide)
+    ?_ ?_ ?_ ?_ (by decide) ?_ ?_
+  · intro s hs; rcases hmem s hs with rfl | rfl <;> decide
+  · intro s hs; rcases hmem s hs with rfl | rfl <;> decide
+  · intro s hs; rcases hmem s hs with rfl | rfl <;> decide
+  · intro s hs t ht; rcases hmem s hs with rfl | rfl <;> rcases hmem t ht with rfl | rfl <;> decide
+  · intro g
+    have h : ∀ x : Int, (∃ s ∈ Refine.Props.C06.exDist, x ∈ s.nodes.map (·.glob)) ↔
+        x ∈ [(0 : Int), 1, 2, 3, 4, 2, 3, 4, 0, 1] := by
+      intro x
+      simp only [Refine.Props.C06.exDist, List.mem_cons, List.not_mem_nil, or_false, exists_eq_or_imp, exists_eq_left,
+        List.map_cons, List.map_nil]
+      tauto
+    rw [h]
+    simp only [List.mem_cons, List.not_mem_nil, or_false]
+    omega
+  · intro s hs; rcases hmem s hs with rfl | rfl <;> rfl
 
 end Refine.Props.C06ShufflinInv
